@@ -275,6 +275,8 @@ def install_pre(mod):
     d["__pyvc_loop_iter__"] = loop_iter
     d["__pyvc_loop_back__"] = loop_back
     d["__pyvc_for_iter__"] = for_iter
+    from .strings import join_any
+    d["__pyvc_join__"] = join_any
 
 
 def install_post(mod):
